@@ -81,6 +81,48 @@ def replay_layer_g(rep, case):
     return 0
 
 
+def replay_job(rep, case):
+    """Re-run one history of checks/job.py and match it against spec/Job.tla again."""
+    import shutil
+
+    from checks import job
+
+    with Scratch():
+        r = job.exec_case({"tid": case["tid"], "phases": case["phases"]})
+        work = tlc.scratch_dir("vjobr-")
+        try:
+            tf, vf = os.path.join(work, "in.ndjson"), os.path.join(work, "out.json")
+            with open(tf, "w") as fh:
+                fh.write(json.dumps({"id": r["tid"], "evs": r["evs"]}, separators=(",", ":")) + "\n")
+            _rc, out, _s = tlc.run_tlc("Job.tla", "Job.cfg", env={"TRACE_FILE": tf, "VERDICT_FILE": vf}, workers=1, timeout=600)
+            if not os.path.exists(vf):
+                print(out[-3000:])
+                return 2
+            with open(vf) as fh:
+                bad = json.load(fh)["vectors"][0]["bad"]
+        finally:
+            shutil.rmtree(work, ignore_errors=True)
+    bad = bad if isinstance(bad, list) else []
+    print("phases:")
+    for ph in case["phases"]:
+        print("   ", ph.get("how"), ph.get("edits"), ph.get("cfg"), ph.get("during"))
+    first = int(bad[0]["k"]) if bad else len(r["evs"])
+    for k, e in enumerate(r["evs"], start=1):
+        if k > first + 2:
+            break
+        if k >= first - 14:
+            print(k, json.dumps(e, sort_keys=True))
+    hit = False
+    for b in bad[:5]:
+        mark = ""
+        if b["clause"] == rep["clause"]:
+            hit = True
+            mark = "  <== recorded violation"
+        print("   event", b["k"], b["clause"], "model before:", json.dumps(b["model"], sort_keys=True), "job:", json.dumps(b["job"], sort_keys=True), mark)
+    print("REPRODUCED" if hit else "NOT REPRODUCED")
+    return 1 if hit else 0
+
+
 def main(argv=None):
     ap = argparse.ArgumentParser()
     ap.add_argument("file")
@@ -91,6 +133,8 @@ def main(argv=None):
     with open(args.file) as fh:
         rep = json.load(fh)
     case = rep["case"]
+    if case is not None and case.get("job_model"):
+        return replay_job(rep, case)
     if case is not None and "project" not in case and ("acts" in case or "config" in case or "case" in case):
         return replay_layer_g(rep, case)
     if case is None or "project" not in case:
